@@ -1,7 +1,417 @@
-//! C38 — not implemented yet (see DESIGN.md section 4).
-use kit::Run;
-use serde_json::Value;
+//! C38 — validation is deterministic and repeatable; signing does not depend on earlier operations in the process.
+//! S-seq: ALL sequences up to a length over an alphabet of eight operations are executed in ONE process (this one),
+//! each sequence on a fresh thread (so the legacy thread-local settings a sequence leaves behind are its own), the
+//! process-wide state (lazy registries, caches) accumulating over all sequences. After a sequence every asset it
+//! produced is re-read twice. Reference = a FRESH worker process (`current_exe()` re-executed with VERIF_C38_WORKER=1)
+//! per asset read / per operation kind, which has executed nothing before.
+//!
+//! Oracle: (a) the canonical report of every read in the sequence, and of both re-reads, equals the fresh process's
+//! report for the same bytes and settings; (b) the canonical report of every asset a signing operation produced
+//! equals that of the same operation performed by a fresh process (labels/instance ids/times canonicalised);
+//! (c) result classes of the non-reading operations equal the fresh process's.
+//!
+//! Mutants caught (tools/mutant_run.sh G <diff> C38 quick):
+//!   C38-context-from-thread-local.diff   Context::new() starts from the legacy thread-local settings -> VIOLATION
 
-pub fn run(_run: &Run, _replay: Option<&Value>) {
-    kit::ev::machinery("C38: check not implemented");
+use c2pa::{settings::Settings, Builder, ProgressPhase, Reader};
+use kit::{assets, canon, ev::hex, ev::unhex, gutil, par, sdk, Run};
+use serde_json::{json, Value};
+use std::{
+    collections::BTreeMap,
+    io::{Cursor, Read, Write},
+    process::{Command, Stdio},
+    sync::{
+        atomic::{AtomicUsize, Ordering},
+        Arc, Mutex, OnceLock,
+    },
+};
+
+const OPS: [&str; 8] = ["sign-png", "sign-jpeg", "read-good", "read-tampered", "sign-with-ingredient", "archive-round-trip-sign", "legacy-from_toml", "cancelled-read"];
+const DEF: &str = r#"{"title":"t","claim_generator_info":[{"name":"kit","version":"1"}]}"#;
+const ING: &str = r#"{"title":"i","relationship":"componentOf"}"#;
+const LEGACY: &str = "[verify]\nverify_after_reading = false\nverify_after_sign = false\n[builder.claim_generator_info]\nname = \"leaked-from-thread-local\"\n";
+
+struct Fixed {
+    good: Vec<u8>,
+    tampered: Vec<u8>,
+}
+
+fn signer() -> &'static (dyn c2pa::Signer + Send + Sync) {
+    static S: OnceLock<Box<dyn c2pa::Signer + Send + Sync>> = OnceLock::new();
+    S.get_or_init(|| sdk::fixture_signer("ed25519")).as_ref()
+}
+
+/// The two fixed inputs. Signing is deterministic up to identifiers, but the BYTES differ from process to process,
+/// so workers receive them from the parent.
+fn make_fixed() -> Fixed {
+    let a = assets::by_name("jpeg");
+    let good = sdk::sign_simple(signer(), a.mime, &a.data, &[]);
+    // alter one byte of the media data that lies behind the manifest (last bytes are entropy coded data + EOI)
+    let mut tampered = good.clone();
+    let n = tampered.len();
+    tampered[n - 4] ^= 0x55;
+    Fixed { good, tampered }
+}
+
+fn read_canon(mime: &str, bytes: &[u8]) -> String {
+    read_both(mime, bytes).0
+}
+
+/// (canonical report, the same with digests masked)
+fn read_both(mime: &str, bytes: &[u8]) -> (String, String) {
+    match par::guard(|| sdk::read(sdk::ctx(), mime, bytes)) {
+        Err(p) => (format!("PANIC {p}"), format!("PANIC {p}")),
+        Ok(Err(e)) => (gutil::err_class(&e), gutil::err_class(&e)),
+        Ok(Ok(r)) => (format!("Ok:{}", canon::canon_string(&r)), format!("Ok:{}", gutil::canon_masked(&r))),
+    }
+}
+
+/// What one operation did: (result class or canonical report, produced asset)
+struct Done {
+    obs: String,
+    produced: Option<(&'static str, Vec<u8>)>,
+}
+
+#[allow(deprecated)]
+fn perform(op: usize, fx: &Fixed) -> Done {
+    let png = assets::by_name("png");
+    let jpeg = assets::by_name("jpeg");
+    let sign_with = |b: &mut Builder, a: &assets::Asset| -> Done {
+        let mime: &'static str = a.mime;
+        match par::guard(|| sdk::sign(b, signer(), mime, &a.data)) {
+            Err(p) => Done { obs: format!("PANIC {p}"), produced: None },
+            Ok(Err(e)) => Done { obs: gutil::err_class(&e), produced: None },
+            Ok(Ok((bytes, _))) => Done { obs: "signed".into(), produced: Some((mime, bytes)) },
+        }
+    };
+    match op {
+        0 => sign_with(&mut sdk::builder(sdk::ctx(), DEF), &png),
+        1 => sign_with(&mut sdk::builder(sdk::ctx(), DEF), &jpeg),
+        2 => Done { obs: read_canon("image/jpeg", &fx.good), produced: None },
+        3 => Done { obs: read_canon("image/jpeg", &fx.tampered), produced: None },
+        4 => {
+            let mut b = sdk::builder(sdk::ctx(), DEF);
+            match par::guard(|| b.add_ingredient_from_stream(ING, "image/jpeg", &mut Cursor::new(&fx.good)).map(|_| ())) {
+                Err(p) => return Done { obs: format!("PANIC {p}"), produced: None },
+                Ok(Err(e)) => return Done { obs: format!("ingredient {}", gutil::err_class(&e)), produced: None },
+                Ok(Ok(())) => {}
+            }
+            sign_with(&mut b, &png)
+        }
+        5 => {
+            let b = sdk::builder(sdk::ctx(), DEF);
+            let r = par::guard(|| {
+                let mut arc = Cursor::new(Vec::new());
+                b.to_archive(&mut arc)?;
+                arc.set_position(0);
+                Builder::from_context(sdk::ctx()).with_archive(arc)
+            });
+            match r {
+                Err(p) => Done { obs: format!("PANIC {p}"), produced: None },
+                Ok(Err(e)) => Done { obs: format!("archive {}", gutil::err_class(&e)), produced: None },
+                Ok(Ok(mut b2)) => {
+                    b2.set_intent(c2pa::BuilderIntent::Edit);
+                    sign_with(&mut b2, &png)
+                }
+            }
+        }
+        6 => match par::guard(|| Settings::from_toml(LEGACY)) {
+            Err(p) => Done { obs: format!("PANIC {p}"), produced: None },
+            Ok(Err(e)) => Done { obs: gutil::err_class(&e), produced: None },
+            Ok(Ok(())) => Done { obs: "legacy-set".into(), produced: None },
+        },
+        7 => {
+            let n = Arc::new(AtomicUsize::new(0));
+            let n2 = n.clone();
+            let ctx = sdk::ctx().with_progress_callback(move |_p: ProgressPhase, _s, _t| n2.fetch_add(1, Ordering::SeqCst) < 2);
+            let r = par::guard(|| Reader::from_context(ctx).with_stream("image/jpeg", Cursor::new(&fx.good)));
+            Done {
+                obs: match r {
+                    Err(p) => format!("PANIC {p}"),
+                    Ok(Err(c2pa::Error::OperationCancelled)) => "Cancelled".into(),
+                    Ok(Err(e)) => gutil::err_class(&e),
+                    Ok(Ok(r)) => format!("not cancelled: {}", sdk::state_name(r.validation_state())),
+                },
+                produced: None,
+            }
+        }
+        _ => kit::ev::machinery("C38: unknown op"),
+    }
+}
+
+// ------------------------------------------------------------------------------------------------
+// fresh worker processes
+
+/// Worker side: one job on stdin, one JSON line on stdout, then exit.
+fn worker_main() -> ! {
+    par::quiet_panics();
+    let mut s = String::new();
+    if std::io::stdin().read_to_string(&mut s).is_err() {
+        std::process::exit(4);
+    }
+    let job: Value = serde_json::from_str(&s).unwrap_or(Value::Null);
+    let fx = Fixed { good: unhex(job["good"].as_str().unwrap_or("")), tampered: unhex(job["tampered"].as_str().unwrap_or("")) };
+    let out = match job["job"].as_str() {
+        Some("read") => {
+            let (c, m) = read_both(job["mime"].as_str().unwrap_or(""), &unhex(job["hex"].as_str().unwrap_or("")));
+            json!({"canon": c, "masked": m})
+        }
+        Some("op") => {
+            let d = perform(job["op"].as_u64().unwrap_or(99) as usize, &fx);
+            let produced_canon = d.produced.as_ref().map(|(m, b)| read_both(m, b).1);
+            json!({"obs": d.obs, "produced_canon": produced_canon})
+        }
+        _ => std::process::exit(5),
+    };
+    println!("{out}");
+    std::process::exit(0);
+}
+
+fn spawn_worker(job: &Value) -> Value {
+    let exe = std::env::current_exe().unwrap_or_else(|e| kit::ev::machinery(format!("C38: current_exe: {e}")));
+    let mut child = Command::new(exe)
+        .arg("C38")
+        .env("VERIF_C38_WORKER", "1")
+        .stdin(Stdio::piped())
+        .stdout(Stdio::piped())
+        .stderr(Stdio::null())
+        .spawn()
+        .unwrap_or_else(|e| kit::ev::machinery(format!("C38: cannot spawn worker: {e}")));
+    {
+        let mut si = child.stdin.take().unwrap_or_else(|| kit::ev::machinery("C38: worker stdin"));
+        let _ = si.write_all(job.to_string().as_bytes());
+    }
+    let out = child.wait_with_output().unwrap_or_else(|e| kit::ev::machinery(format!("C38: worker wait: {e}")));
+    if !out.status.success() {
+        kit::ev::machinery(format!("C38: worker failed with {:?} for job {}", out.status, job["job"]));
+    }
+    serde_json::from_slice(&out.stdout).unwrap_or_else(|e| kit::ev::machinery(format!("C38: worker output unreadable: {e}")))
+}
+
+// ------------------------------------------------------------------------------------------------
+
+struct SeqRecord {
+    seq: Vec<usize>,
+    /// per op: observation
+    obs: Vec<String>,
+    /// produced assets: (op index in seq, mime, bytes, in-process reads [immediate, re-read 1, re-read 2])
+    produced: Vec<(usize, &'static str, Vec<u8>, Vec<String>)>,
+}
+
+fn run_sequence(seq: &[usize], fx: &Arc<Fixed>) -> SeqRecord {
+    let (seq2, fx2) = (seq.to_vec(), fx.clone());
+    let h = std::thread::spawn(move || {
+        let mut rec = SeqRecord { seq: seq2.clone(), obs: vec![], produced: vec![] };
+        for (i, op) in seq2.iter().enumerate() {
+            let d = perform(*op, &fx2);
+            rec.obs.push(d.obs);
+            if let Some((mime, bytes)) = d.produced {
+                let now = read_canon(mime, &bytes);
+                rec.produced.push((i, mime, bytes, vec![now]));
+            }
+        }
+        // afterwards: re-read every produced asset, twice
+        for p in rec.produced.iter_mut() {
+            p.3.push(read_canon(p.1, &p.2));
+            p.3.push(read_canon(p.1, &p.2));
+        }
+        rec
+    });
+    h.join().unwrap_or_else(|_| kit::ev::machinery("C38: sequence thread panicked outside a guarded call"))
+}
+
+fn all_sequences(max_len: usize) -> Vec<Vec<usize>> {
+    let mut out: Vec<Vec<usize>> = vec![];
+    let mut frontier: Vec<Vec<usize>> = vec![vec![]];
+    for _ in 0..max_len {
+        let mut next = vec![];
+        for s in &frontier {
+            for op in 0..OPS.len() {
+                let mut x = s.clone();
+                x.push(op);
+                next.push(x);
+            }
+        }
+        out.extend(next.iter().cloned());
+        frontier = next;
+    }
+    out
+}
+
+fn names(seq: &[usize]) -> Vec<&'static str> {
+    seq.iter().map(|o| OPS[*o]).collect()
+}
+
+fn first_diff(a: &str, b: &str) -> String {
+    let i = a.bytes().zip(b.bytes()).position(|(x, y)| x != y).unwrap_or(a.len().min(b.len()));
+    let s = i.saturating_sub(40);
+    let cut = |t: &str| t.chars().skip(s).take(110).collect::<String>();
+    format!("first difference at {i}: …{}… vs …{}…", cut(a), cut(b))
+}
+
+struct RefsOfFresh {
+    /// per op: (obs, canon of the produced asset)
+    op: Vec<(String, Option<String>)>,
+}
+
+fn judge(run: &Run, rec: &SeqRecord, fresh: &RefsOfFresh, fresh_reads: &BTreeMap<(usize, usize), (String, String)>, idx: usize, context: &str) -> usize {
+    let case = json!({"sequence": rec.seq, "names": names(&rec.seq)});
+    let mut bad = 0;
+    let hist = |i: usize| -> String {
+        // the most recent earlier operation kind, as the stable part of the key
+        if i == 0 { "none".into() } else { OPS[rec.seq[i - 1]].to_string() }
+    };
+    for (i, op) in rec.seq.iter().enumerate() {
+        let (want_obs, _) = &fresh.op[*op];
+        if &rec.obs[i] != want_obs {
+            bad += 1;
+            let kind = if rec.obs[i].starts_with("PANIC") { "panic" } else if matches!(*op, 2 | 3) { "read-report-differs-from-fresh-process" } else { "operation-result-differs-from-fresh-process" };
+            run.outcome(kind.to_string());
+            run.violation(
+                format!("{kind} op={} after={}{context}", OPS[*op], hist(i)),
+                format!("sequence {:?}: step {i} ({}) gives a result that differs from the same operation in a fresh process: {}", names(&rec.seq), OPS[*op], first_diff(&rec.obs[i], want_obs)),
+                case.clone(),
+            );
+        } else {
+            run.outcome(format!("{}: equals fresh process", OPS[*op]));
+        }
+    }
+    for (pi, (i, _mime, _bytes, reads)) in rec.produced.iter().enumerate() {
+        let op = rec.seq[*i];
+        // (a) all in-process reads of these bytes equal the fresh process's read of the same bytes
+        let (want, want_masked) = fresh_reads.get(&(idx, pi)).unwrap_or_else(|| kit::ev::machinery("C38: missing fresh read"));
+        for (ri, r) in reads.iter().enumerate() {
+            if r != want {
+                bad += 1;
+                let when = ["immediately", "re-read-1", "re-read-2"][ri.min(2)];
+                run.outcome("in-process read differs from fresh-process read");
+                run.violation(
+                    format!("produced-asset-read-differs-from-fresh-process when={when} op={} after={}{context}", OPS[op], hist(*i)),
+                    format!("sequence {:?}: the asset produced at step {i} reads differently in this process ({when}) than in a fresh process: {}", names(&rec.seq), first_diff(r, want)),
+                    case.clone(),
+                );
+                break;
+            }
+        }
+        if reads.len() == 3 && reads[1] != reads[2] {
+            bad += 1;
+            run.violation(format!("re-reads-differ op={}{context}", OPS[op]), format!("sequence {:?}: two consecutive reads of the asset of step {i} differ: {}", names(&rec.seq), first_diff(&reads[1], &reads[2])), case.clone());
+        }
+        // (b) signing independent of history: same canonical report as the same operation in a fresh process
+        if let Some(wantc) = &fresh.op[op].1 {
+            if want_masked != wantc {
+                bad += 1;
+                run.outcome("signing depends on history");
+                run.violation(
+                    format!("signed-result-depends-on-history op={} after={}{context}", OPS[op], hist(*i)),
+                    format!("sequence {:?}: the asset signed at step {i} ({}) is not the one a fresh process signs: {}", names(&rec.seq), OPS[op], first_diff(want_masked, wantc)),
+                    case.clone(),
+                );
+            } else {
+                run.outcome(format!("{}: output equals fresh-process output", OPS[op]));
+            }
+        }
+    }
+    bad
+}
+
+pub fn run(run: &Run, replay: Option<&Value>) {
+    if std::env::var("VERIF_C38_WORKER").is_ok() {
+        worker_main();
+    }
+    run.rule(
+        "alphabet of 8 operations; ALL sequences up to the stated length run in this one process, each on a fresh thread, process-wide state accumulating; every asset produced is read at once and re-read twice at the end. \
+         evaluations = operations executed here + fresh worker processes consulted. states = sequences (process histories), transitions = operations executed. \
+         non-trivial = sequences of length >= 2 that produce at least one asset (a read whose history contains another operation), counted per distinct sequence.",
+    );
+    run.assume("a fresh worker process (same binary, nothing executed before) is the reference for 'the same bytes and settings'; its own determinism is checked by asking two workers");
+    run.assume("reports are compared after canonicalisation (labels, instance ids, validation time)");
+    run.assume("settings are always passed through an explicit Context (kit base settings); the legacy operation only touches thread-local settings, which no other operation is supposed to read");
+    let fx = Arc::new(make_fixed());
+    let fixed_json = |mut j: Value| -> Value {
+        j["good"] = json!(hex(&fx.good));
+        j["tampered"] = json!(hex(&fx.tampered));
+        j
+    };
+
+    // fresh-process references per operation kind (asked twice: the reference itself must be deterministic)
+    let fresh_ops: Vec<(Value, Value)> = {
+        let out: Mutex<BTreeMap<u64, (Value, Value)>> = Mutex::new(BTreeMap::new());
+        par::for_each_index(OPS.len() as u64, |op| {
+            let j = fixed_json(json!({"job": "op", "op": op}));
+            out.lock().unwrap().insert(op, (spawn_worker(&j), spawn_worker(&j)));
+        });
+        out.into_inner().unwrap().into_values().collect()
+    };
+    run.evals(2 * OPS.len() as u64);
+    let mut fresh = RefsOfFresh { op: vec![] };
+    for (op, (a, b)) in fresh_ops.iter().enumerate() {
+        if a != b {
+            kit::ev::machinery(format!("C38: two fresh processes disagree on {}: {}", OPS[op], first_diff(&a.to_string(), &b.to_string())));
+        }
+        fresh.op.push((a["obs"].as_str().unwrap_or("").to_string(), a["produced_canon"].as_str().map(|s| s.to_string())));
+    }
+    // the references must be meaningful
+    if !fresh.op[2].0.contains("\"state\":\"Valid\"") && !fresh.op[2].0.contains("\"state\":\"Trusted\"") {
+        kit::ev::machinery(format!("C38 seed: fresh read of the good asset is not Valid: {}", fresh.op[2].0.chars().take(200).collect::<String>()));
+    }
+    if !fresh.op[3].0.contains("\"state\":\"Invalid\"") {
+        kit::ev::machinery("C38 seed: fresh read of the tampered asset is not Invalid");
+    }
+    if fresh.op[6].0 != "legacy-set" || fresh.op[7].0 != "Cancelled" || fresh.op.iter().take(2).chain(fresh.op.iter().skip(4).take(2)).any(|o| o.0 != "signed" || !o.1.as_deref().unwrap_or("").starts_with("Ok:")) {
+        kit::ev::machinery(format!("C38 seed: fresh operations do not succeed: {:?}", fresh.op.iter().map(|o| o.0.chars().take(30).collect::<String>()).collect::<Vec<_>>()));
+    }
+
+    let check = |seqs: &[Vec<usize>], context: &str| -> usize {
+        // 1. all sequences, sequentially, in this process
+        let recs: Vec<SeqRecord> = seqs.iter().map(|s| run_sequence(s, &fx)).collect();
+        let ops_run: u64 = recs.iter().map(|r| r.seq.len() as u64 + 3 * r.produced.len() as u64).sum();
+        run.evals(ops_run);
+        run.states(recs.len() as u64);
+        run.transitions(recs.iter().map(|r| r.seq.len() as u64).sum());
+        run.traces(recs.len() as u64);
+        // 2. one fresh process per produced asset
+        let jobs: Vec<(usize, usize)> = recs.iter().enumerate().flat_map(|(i, r)| (0..r.produced.len()).map(move |p| (i, p))).collect();
+        let fresh_reads: Mutex<BTreeMap<(usize, usize), (String, String)>> = Mutex::new(BTreeMap::new());
+        par::for_each(&jobs, |(i, p)| {
+            let (_, mime, bytes, _) = &recs[*i].produced[*p];
+            let v = spawn_worker(&json!({"job": "read", "mime": mime, "hex": hex(bytes)}));
+            fresh_reads.lock().unwrap().insert((*i, *p), (v["canon"].as_str().unwrap_or("").to_string(), v["masked"].as_str().unwrap_or("").to_string()));
+        });
+        run.evals(jobs.len() as u64);
+        run.extra("fresh_worker_processes_for_produced_assets", json!(jobs.len()));
+        let fr = fresh_reads.into_inner().unwrap();
+        let mut bad = 0;
+        for (i, r) in recs.iter().enumerate() {
+            bad += judge(run, r, &fresh, &fr, i, context);
+            if r.seq.len() >= 2 && !r.produced.is_empty() {
+                run.nontrivial(format!("{:?}", r.seq));
+            }
+            if i % 97 == 13 {
+                run.sample(json!({"sequence": names(&r.seq), "observations": r.obs.iter().map(|o| o.chars().take(24).collect::<String>()).collect::<Vec<_>>(), "assets_produced": r.produced.len()}));
+            }
+        }
+        bad
+    };
+
+    if let Some(c) = replay {
+        let seq: Vec<usize> = c["sequence"].as_array().map(|a| a.iter().filter_map(|x| x.as_u64().map(|n| n as usize)).collect()).unwrap_or_default();
+        println!("replay sequence {:?} alone in this process", names(&seq));
+        let bad = check(&[seq], "");
+        println!("  deviations from the fresh-process references: {bad}");
+        return;
+    }
+
+    let max_len = run.tier.pick(3usize, 4usize);
+    let seqs = all_sequences(max_len);
+    run.space(&format!("all operation sequences of length 1..={max_len} over {} operations {:?}", OPS.len(), OPS), seqs.len() as u64, true);
+    // own the nondeterminism: the first two-step sequence twice
+    {
+        let a = run_sequence(&[0, 2], &fx);
+        let b = run_sequence(&[0, 2], &fx);
+        if a.obs != b.obs || a.produced[0].3 != b.produced[0].3 {
+            kit::ev::machinery("C38: the same sequence gives two different canonical observations");
+        }
+    }
+    check(&seqs, "");
 }
